@@ -2099,6 +2099,21 @@ impl TextResource {
         operator: TextSelectionOperator,
         refset: TextSelectionSet,
     ) -> FindTextSelectionsIter<'store> {
+        //a selection that the reference set holds more than once counts once (each result is
+        //returned once, and the set with one distinct member is searched as that member is)
+        let mut refset = refset;
+        let mut index = 0;
+        while index < refset.data.len() {
+            let (begin, end) = (refset.data[index].begin(), refset.data[index].end());
+            if refset.data[..index]
+                .iter()
+                .any(|t| t.begin() == begin && t.end() == end)
+            {
+                refset.data.remove(index);
+            } else {
+                index += 1;
+            }
+        }
         //a reference set drawn from another resource stands in no relation to the text selections of
         //this one (offsets and handles of two resources are not comparable): nothing is found
         let foreign = self
